@@ -7,4 +7,4 @@ ASSUMPTIONS = _bc.ASSUMPTIONS
 
 
 def run(ck):
-    _bc.run_bc(ck, "c08", set("c08_store_before_send c08_kept_until_acked c08_resend c08_no_second_new".split()))
+    _bc.run_bc(ck, "c08", set("c08_store_before_send c08_kept_until_acked c08_resend c08_no_second_new c08_popped_is_saved c08_pubrel_after_store".split()))
